@@ -28,7 +28,8 @@ RULE = ("per scenario {first call; second function with identical bytes already 
         "which the fault was observed to fire"
         '; scenarios include an array result larger than the memory cache that the caller keeps'
         '; rounds 7-9: a chain of partitions, recovery ending with a forget'
-        '; round 12: two earlier calls stored under the override key the faulted call writes to, judged in the fresh processes')
+        '; round 12: two earlier calls stored under the override key the faulted call writes to, judged in the fresh processes'
+        '; round 14: scenario override_next - other calls are the first to write under the override key after the fault')
 ASSUMPTIONS = ["a crash is os._exit at the failpoint (no Python-level cleanup runs); durability of completed writes "
                "is the file system's business", "faults are injected into mutating operations only",
                "bounded recovery: the first call after faults stop may recompute, the third must be served"]
